@@ -15,6 +15,20 @@ E3  each recorded operation (inline/spill decision, address % alignof at constru
     outstanding per small-buffer class, heap blocks outstanding) is validated by TLC against the spec
     (OnceFnTrace.tla evaluates KindOf/ClassOf on the real sizeof/alignof), all invariants on.
 E4  random legal operation sequences; thorough: the same under AddressSanitizer/UBSan as auxiliary monitor.
+E2b storage owned until destruction ENDS (the release is the last thing operator() / cleanupNotRun() do).
+    Counting constructions / destructions cannot see a block that is handed back to its pool (or free()d)
+    before or while the callable is invoked / destroyed: nothing is observable unless somebody allocates from
+    the same class in between - which is what a capture does whose destructor schedules follow-up work.  So
+    (1) every callable samples, inside operator() and as its destructor ends, the blocks outstanding per class
+    / on the heap: they must be those of the step's pre-state (OnceFnTrace!OwnedToTheEnd); (2) in two of every
+    three rounds of the type rotation (cover replay and random sequences) the callable is RE-ENTRANT: its
+    operator() and its destructor create and consume (invoke / cleanupNotRun) a nested OnceFunction holding a
+    callable of the same sizeof/alignof - same storage decision, same size class, same thread cache; the
+    nested callable must not overlap the live outer one, both must keep their bytes (the outer one checks
+    its pattern as the last statement of its destructor), the nested one is destroyed exactly once;
+    (3) directed executions (--reentrant): all 99 types + 2 of heap class 1024 x both nested-consume forms x
+    {run, cleanupNotRun, moved then run, moved twice then cleanupNotRun, two blocks of the class taken and the
+    older one consumed first}.
 """
 import os
 import re
@@ -80,6 +94,38 @@ def _schedules(dot, out):
             'paths': len(paths), 'steps': steps, 'actions': dict(actions)}
 
 
+def _explain(trace, line):
+    """Diagnosis only (the verdict is TLC's): which of the 'storage owned until destruction ends' observations
+    of the rejected Call / Cleanup line deviates from the pre-state recorded on the line before it."""
+    try:
+        with open(trace) as f:
+            lines = f.readlines()
+        import json
+        ev = json.loads(lines[line - 1])
+        prev = json.loads(lines[line - 2])
+    except Exception:
+        return
+    if ev.get('e') not in ('Call', 'Cleanup') or 'out' not in prev:
+        return
+    why = []
+    if 'iout' in ev and (ev['iout'] != prev['out'] or ev['ilout'] != prev['lout']):
+        why.append('the callable\'s block was already released when operator() ran (outstanding inside operator() '
+                   '%r/%r, before the step %r/%r)' % (ev['iout'], ev['ilout'], prev['out'], prev['lout']))
+    if ev.get('dout') != prev['out'] or ev.get('dlout') != prev['lout']:
+        why.append('the callable\'s block was released BEFORE its destructor finished (outstanding at the end of the '
+                   'destructor %r/%r, before the step %r/%r)' % (ev.get('dout'), ev.get('dlout'), prev['out'],
+                                                                 prev['lout']))
+    if ev.get('nover'):
+        why.append('a OnceFunction created during the invocation / destruction got storage overlapping the live '
+                   'callable (%d times)' % ev['nover'])
+    if ev.get('nbad'):
+        why.append('the nested callable was clobbered')
+    if ev.get('re') and not ev.get('intact', 1):
+        why.append('the callable\'s bytes were overwritten before its destruction ended')
+    for w in why:
+        vlib.log('  diagnosis: storage not owned until destruction ended: ' + w)
+
+
 def run(ctx):
     thorough = ctx.tier == 'thorough'
     exe = ctx.build('drv_oncefn', SRCS, dispenso=['small_buffer_allocator.cpp'], flags=_flags(), libs=WRAP)
@@ -121,15 +167,40 @@ def run(ctx):
     tot, out = ctx.driver(exe, ['--out', tr2, '--random', n, '--maxops', 14, '--seed', ctx.seed + 7], WHAT,
                           label='random sequences')
     _types_covered(ctx, tot, out, 'random sequences')
-    both = os.path.join(ctx.work, 'cover_and_random.ndjson')   # one TLC start for both traces
+    rand_execs = tot.get('completed', 0)
+
+    # E2b: directed re-entrant payloads (see the module comment) ---------------------------------
+    tr3 = os.path.join(ctx.work, 'reentrant.ndjson')
+    tot, out = ctx.driver(exe, ['--out', tr3, '--reentrant', '--seed', ctx.seed + 3], WHAT,
+                          label='re-entrant payloads, every type x consume path')
+    _types_covered(ctx, tot, out, 're-entrant payloads')
+    if tot and tot.get('completed', 0) != (99 + 2) * 2 * 5:
+        raise vlib.ToolError('re-entrant run completed %r executions, expected %d'
+                             % (tot.get('completed'), (99 + 2) * 2 * 5))
+    reent_execs = tot.get('completed', 0)
+    # the rotation of the cover replay and the random run must have produced all three payload modes
+    modes = {}
+    for t in (tr, tr2):
+        with open(t) as f:
+            for line in f:
+                if '"e":"Create"' in line:
+                    m = re.search(r'"re":(\d)', line)
+                    modes[m.group(1) if m else '?'] = modes.get(m.group(1) if m else '?', 0) + 1
+    ctx.cov['payload_modes'] = modes
+    if cover_execs and set(modes) != {'0', '1', '2'}:
+        raise vlib.ToolError('payload modes in the cover/random traces: %r, expected plain + 2 re-entrant' % modes)
+
+    both = os.path.join(ctx.work, 'cover_and_random.ndjson')   # one TLC start for all traces
     with open(both, 'w') as o:
-        for t in (tr, tr2):
+        for t in (tr, tr2, tr3):
             with open(t) as f:
                 for line in f:
                     o.write(line)
-    ctx.validate(SPEC, 'OnceFnTrace.tla', 'OnceFnTrace.cfg', both, WHAT,
-                 executions=cover_execs + tot.get('completed', 0),
-                 label='cover replay + random sequences', timeout=1500)
+    res = ctx.validate(SPEC, 'OnceFnTrace.tla', 'OnceFnTrace.cfg', both, WHAT,
+                       executions=cover_execs + rand_execs + reent_execs,
+                       label='cover replay + random sequences + re-entrant payloads', timeout=1500)
+    if res.violation and res.rejected_line:
+        _explain(both, res.rejected_line)
 
     if thorough:
         san = ctx.build('drv_oncefn', SRCS, dispenso=['small_buffer_allocator.cpp'], flags=_flags(), libs=WRAP,
